@@ -388,7 +388,7 @@ def write_replay(pid, tier, seed, v: Violation):
     with open(path, "w") as f: json.dump(body, f, indent=1, sort_keys=True)
     return path
 
-def finish(pid, tier, seed, t0, level, coverage, violations, assumptions=None, max_report=5):
+def finish(pid, tier, seed, t0, level, coverage, violations, assumptions=None, max_report=3):
     """Apply known findings, write evidence, print lines, return exit status."""
     known = [k for k in load_known() if k.get("property") == pid and k.get("status") == "known"]
     real, knownhits = [], {}
@@ -405,7 +405,17 @@ def finish(pid, tier, seed, t0, level, coverage, violations, assumptions=None, m
         print("KNOWN-FINDING: property=%s %s (%d case(s) this run)" % (pid, what, n))
     paths = []
     real.sort(key=lambda v: (not v.found, len(repr(v.case))))
-    for v in real[:max_report]:
+    # report the smallest cases of every distinct kind of violation (at most max_report per kind)
+    seen_kind = {}
+    report = []
+    for v in real:
+        k = v.what
+        seen_kind[k] = seen_kind.get(k, 0) + 1
+        if seen_kind[k] <= max_report and len(report) < 4 * max_report:
+            report.append(v)
+    for k, n_k in seen_kind.items():
+        print("violation kind: %s  (x%d)" % (k, n_k))
+    for v in report:
         path = write_replay(pid, tier, seed, v)
         paths.append(path)
         print("VIOLATION property=%s replay=%s%s" % (pid, path, "" if v.found else " no-failing-input-found"))
